@@ -419,7 +419,8 @@ class Interp:
         if kind == "sampled":
             h.append_sampled_dimension(op["interval"], label=op.get("label"), unit=op.get("unit"),
                                        offset=op.get("offset"))
-            da.info["dims"].append({"kind": "sampled", "link": None})
+            da.info["dims"].append({"kind": "sampled", "link": None,
+                                    "attrs": {"sampling_interval": op["interval"], "offset": op.get("offset")}})
         elif kind == "range":
             h.append_range_dimension(ticks=op.get("ticks"), label=op.get("label"), unit=op.get("unit"))
             da.info["dims"].append({"kind": "range", "link": None})
@@ -483,21 +484,29 @@ class Interp:
         ent.attrs[attr] = val
         return True
 
+    DIM_ATTRS = {"sampled": ("sampling_interval", "offset", "unit", "label"),
+                 "range": ("ticks", "unit", "label"), "set": ("labels", "label")}
+
+    def resolve_set_dim(self, op):
+        """(array, descriptor index) a set_dim op addresses: among the descriptors that HAVE the attribute"""
+        cands = [(a, i) for a in self.alive("array") for i, d in enumerate(a.info.get("dims", []))
+                 if op["attr"] in self.DIM_ATTRS[d["kind"]]]
+        if not cands:
+            return None, None
+        return cands[(op["da"] * 7 + op.get("dim", 0)) % len(cands)]
+
     def op_set_dim(self, op):
-        da = self.pick("array", op["da"], lambda a: a.info.get("dims"))
+        da, di = self.resolve_set_dim(op)
         if da is None:
             return False
         dims = da.info["dims"]
-        di = op.get("dim", 0) % len(dims)
         kind = dims[di]["kind"]
-        allowed = {"sampled": ("sampling_interval", "offset", "unit", "label"),
-                   "range": ("ticks", "unit", "label"), "set": ("labels", "label")}[kind]
         attr = op["attr"]
-        if attr not in allowed:
-            return False
         val = op["val"]
         h = self.handle(da, op.get("how", "name")).dimensions[di]
         setattr(h, attr, val)
+        if attr in ("sampling_interval", "offset"):
+            dims[di].setdefault("attrs", {})[attr] = val
         link = dims[di].get("link")
         if attr == "ticks":
             dims[di]["link"] = None
